@@ -14,7 +14,7 @@ import (
 func init() {
 	register("C12",
 		"that the start offset is measured from the right Jie instant and converted without rounding loss (numeric); that ages/years line up with the birth year beyond the affine relations checked here (AX-AGE).",
-		r12_1, r12_2, r12_3, r12_4, r12_5, r12_6, r12_7)
+		r12_1, r12_2, r12_3, r12_4, r12_5, r12_6, r12_7, r03_3)
 }
 
 // evalBoolOnPath evaluates a boolean SSA value along a path given truth values for atoms.
